@@ -5,13 +5,13 @@ package main
 // callee) every engine builds on.  Nothing in /repo is executed.
 
 import (
-	"time"
 	"fmt"
 	"go/token"
 	"go/types"
 	"os"
 	"sort"
 	"strings"
+	"time"
 
 	"golang.org/x/tools/go/callgraph"
 	"golang.org/x/tools/go/callgraph/cha"
